@@ -22,7 +22,7 @@ from .. import instrs as I
 from . import c12
 from ..model import AnalysisError, EnumMember, NamedTupleType, Unknown, dotted, src
 
-TECHNIQUE = "AST table agreement (index constants vs namedtuple fields), coercion- and forwarding-completeness rules, operand-role agreement; abstract interpretation of small functions over an enumerated finite domain by the checker's own AST interpreter (static analysis)"
+TECHNIQUE = "AST table agreement (index constants vs namedtuple fields), forwarding-completeness and operand-role rules; request round trip (serialize_request, _get_create_request, link-layer conversion) and result-array slices executed by the checker's own AST interpreter (static analysis; abstract execution)"
 ENGINES = ["model", "instrs", "circuit"]
 EXPLANATION = (
     "Index constants of sdk/build_epr.py are evaluated and compared with the field positions of LinkLayerCreate / LinkLayerOKTypeK / "
@@ -36,6 +36,7 @@ EXPLANATION = (
     ' C11.K: a value remembered across calls (keyed table or single slot) is remembered under every argument it depends on.'
     ' C11.R executes _alloc_ent_results_array abstractly for the three request types.'
     ' C11.S executes serialize_request over 432 combinations of type, count, time limit, rotations and random bases, and both result deserialisers for 0, 1, 2 and 5 pairs, wrong array sizes, both roles. C11.X: the consumption rule of C12 under this id.'
+    " C11.C: 288 requests taken through serialize_request, Executor._get_create_request and request_to_qlink_1_0 (library modelled): every field carries what was asked or its default, enumeration fields hold members, the conversion accepts the request. C11.R: _store_ent_info and _create_ent_info_k_slices executed for 0-3 pairs."
 )
 LEVEL_TEXT = (
     "Static analysis, partial: all 40 index constants, all request parameters, all result attributes, all forwarding call sites and "
